@@ -359,3 +359,9 @@ func init() {
 		runRetryRule(c, "X.retry", func(fn *ssa.Function) bool { return inModule(fn) }, 1)
 	}})
 }
+
+func init() {
+	register(&Property{ID: "X-loopcond", NeedSSA: true, Decided: "dump", NotDecided: "-", Run: func(c *Ctx) {
+		runLoopCondRule(c, "X.loopcond", func(fn *ssa.Function) bool { return inModule(fn) }, 1)
+	}})
+}
